@@ -11,8 +11,10 @@
 //     else (order_sensitive_append, string_concat, last_write_wins, multi_key_match,
 //     first_match_ambiguous, derived_key_write, unknown) breaks
 //     GenFS.all_sites_order_insensitive unless the site is in the committed allow-list
-//     (translate/c09/allowlist.json: site, fingerprint of the loop text, one-line
-//     justification, kind inspected|finding). A stale fingerprint voids the entry.
+//     (translate/c09/allowlist.json: site, fingerprint of the loop text, the shape the
+//     rules gave at inspection time, one-line justification, kind inspected|finding). An
+//     entry whose fingerprint or shape no longer matches is void (e.g. the sort after an
+//     inspected collect loop was removed: same loop text, other shape).
 //   - the FILE-LITERAL INVENTORY: every composite literal of type codegen.File, whether
 //     it sets `SkipExist: true`, and whether its function is statically reachable from
 //     generator.Example / from the gen generators (Service, Transport, OpenAPI).
@@ -37,9 +39,16 @@
 //	  f(...) as a statement, go, defer, send, goto, labels          -> unknown
 //	calls in expression position are taken to be free of effects on shared state
 //	(recorded as an assumption of the check).
-//	collect into x is fine only if the first use of x after the loop (same function, by
-//	position) is as the first argument of sort.Strings/Ints/Float64s/Slice/SliceStable/
-//	Sort/Stable or slices.Sort/SortFunc/SortStableFunc; otherwise order_sensitive_append.
+//	collect into x is fine only if every collected element is the loop key itself and the
+//	first use of x after the loop (same function, by position) is as the argument of
+//	sort.Strings/Ints/Float64s or slices.Sort (natural order of the elements = a total
+//	order on distinct keys). Collected elements derived from the key or the value, or a
+//	sort through a comparator (sort.Slice/SliceStable/Sort/Stable, slices.SortFunc...) ->
+//	collect_derived_sort (not accepted: needs inspection); no sort -> order_sensitive_append.
+//	A variable declared inside the body only counts as local storage if it owns what it
+//	points to (literal, make/new, New* constructor, value copy without pointers); the
+//	key/value of an inner range over outer data, `x := outer[i]`, results of other calls
+//	alias outer data and writes through them are writes to outer data.
 //	a range directly inside `if len(<same expr>) == 1 { ... }` is a singleton.
 package main
 
@@ -115,7 +124,8 @@ var ambientFuncs = map[string]map[string]bool{
 type AllowEntry struct {
 	Site        string `json:"site"`
 	Fingerprint string `json:"fingerprint"`
-	Kind        string `json:"kind"` // inspected | finding
+	Shape       string `json:"shape"` // the shape the rules gave when the site was inspected
+	Kind        string `json:"kind"`  // inspected | finding
 	Why         string `json:"why"`
 }
 
@@ -210,7 +220,7 @@ type classifier struct {
 	key   types.Object
 	val   types.Object
 	effs  []string
-	colls map[types.Object]bool // slices collected into
+	colls map[types.Object]bool // slices collected into; true = every collected element is the loop key itself
 	ctrs  map[types.Object]bool // counters used as collect index
 }
 
@@ -302,6 +312,20 @@ func (c *classifier) analyseCond(e ast.Expr) (keyed, multi bool) {
 
 func (c *classifier) eff(s string) { c.effs = append(c.effs, s) }
 
+// isKey: the expression is the loop key variable itself.
+func (c *classifier) isKey(e ast.Expr) bool {
+	id, ok := ast.Unparen(e).(*ast.Ident)
+	return ok && c.key != nil && c.objOf(id) == c.key
+}
+
+func (c *classifier) collected(o types.Object, keyOnly bool) {
+	if prev, seen := c.colls[o]; seen {
+		c.colls[o] = prev && keyOnly
+	} else {
+		c.colls[o] = keyOnly
+	}
+}
+
 func (c *classifier) stmts(list []ast.Stmt, g guard) {
 	for _, s := range list {
 		c.stmt(s, g)
@@ -325,7 +349,13 @@ func (c *classifier) assignTarget(lhs ast.Expr, rhs ast.Expr, tok token.Token, g
 		if call, ok := rhs.(*ast.CallExpr); ok && tok == token.ASSIGN {
 			if fid, ok := call.Fun.(*ast.Ident); ok && fid.Name == "append" && len(call.Args) > 0 {
 				if a0, ok := ast.Unparen(call.Args[0]).(*ast.Ident); ok && c.objOf(a0) == o {
-					c.colls[o] = true
+					keyOnly := call.Ellipsis == token.NoPos
+					for _, a := range call.Args[1:] {
+						if !c.isKey(a) {
+							keyOnly = false
+						}
+					}
+					c.collected(o, keyOnly)
 					c.eff("collect")
 					return
 				}
@@ -364,18 +394,24 @@ func (c *classifier) assignTarget(lhs ast.Expr, rhs ast.Expr, tok token.Token, g
 	}
 	root := rootIdent(lhs)
 	ro := c.objOf(root)
-	if root != nil && (c.isLocal(ro) && !c.aliasesOuter(ro)) {
-		return
+	kind := aliasOuter
+	if root != nil {
+		if c.isLoopVar(ro) {
+			kind = aliasElem
+		} else if c.isLocal(ro) {
+			kind = c.aliasKind(ro, 0)
+		}
 	}
-	if ix, ok := lhs.(*ast.IndexExpr); ok {
+	if kind == aliasFresh {
+		return // writes into storage owned by this iteration
+	}
+	if ix, ok := lhs.(*ast.IndexExpr); ok && kind == aliasOuter {
 		t := c.info().TypeOf(ix.X)
 		if t != nil {
 			switch t.Underlying().(type) {
 			case *types.Map:
-				if id, ok := ast.Unparen(ix.Index).(*ast.Ident); ok && c.key != nil && c.objOf(id) == c.key {
+				if c.isKey(ix.Index) {
 					c.eff("map_write")
-				} else if c.isLoopVar(ro) {
-					c.eff("elem_write")
 				} else {
 					c.eff("derived_key_write")
 				}
@@ -385,7 +421,7 @@ func (c *classifier) assignTarget(lhs ast.Expr, rhs ast.Expr, tok token.Token, g
 					if iid, ok := ast.Unparen(ix.Index).(*ast.Ident); ok {
 						xo, io := c.objOf(xid), c.objOf(iid)
 						if xo != nil && io != nil && !c.isLocal(xo) && !c.isLocal(io) && !c.isLoopVar(io) {
-							c.colls[xo] = true
+							c.collected(xo, rhs != nil && c.isKey(rhs))
 							c.ctrs[io] = true
 							c.eff("collect")
 							return
@@ -395,11 +431,11 @@ func (c *classifier) assignTarget(lhs ast.Expr, rhs ast.Expr, tok token.Token, g
 			}
 		}
 	}
-	if c.isLoopVar(ro) {
+	if kind == aliasElem {
 		c.eff("elem_write")
 		return
 	}
-	// field / element of an outer object
+	// field / element of an object that outlives the iteration
 	if rhs != nil && c.isConst(rhs) && tok == token.ASSIGN {
 		c.eff("const_set")
 		return
@@ -414,54 +450,157 @@ func (c *classifier) assignTarget(lhs ast.Expr, rhs ast.Expr, tok token.Token, g
 	}
 }
 
-// aliasesOuter: a local declared as `x := <expr rooted at an outer variable or a call>`
-// may alias shared data; locals initialised from the loop variables, literals,
-// make/new or composite literals do not.
-func (c *classifier) aliasesOuter(o types.Object) bool {
-	alias := false
-	ast.Inspect(c.rs.Body, func(n ast.Node) bool {
-		as, ok := n.(*ast.AssignStmt)
-		if !ok || as.Tok != token.DEFINE {
-			return true
+// Alias kinds of a variable declared inside the loop body.
+const (
+	aliasFresh = iota // owns what it points to (literal, make/new, New* constructor, value copy)
+	aliasElem         // reaches into the current map entry (rooted at the loop key/value)
+	aliasOuter        // may reach data that outlives the iteration
+)
+
+// refLike: a value of this type can share storage with another value.
+func refLike(t types.Type, depth int) bool {
+	if depth > 4 {
+		return true
+	}
+	switch u := t.Underlying().(type) {
+	case *types.Basic:
+		return false
+	case *types.Struct:
+		for i := 0; i < u.NumFields(); i++ {
+			if refLike(u.Field(i).Type(), depth+1) {
+				return true
+			}
 		}
-		for i, l := range as.Lhs {
-			id, ok := l.(*ast.Ident)
-			if !ok || c.info().Defs[id] != o {
-				continue
+		return false
+	case *types.Array:
+		return refLike(u.Elem(), depth+1)
+	}
+	return true
+}
+
+// exprAlias: what a value computed by e may share storage with.
+func (c *classifier) exprAlias(e ast.Expr, depth int) int {
+	e = ast.Unparen(e)
+	switch x := e.(type) {
+	case *ast.CompositeLit, *ast.BasicLit, *ast.FuncLit:
+		return aliasFresh
+	case *ast.UnaryExpr:
+		if x.Op == token.AND {
+			if _, ok := ast.Unparen(x.X).(*ast.CompositeLit); ok {
+				return aliasFresh
 			}
-			var r ast.Expr
-			if len(as.Rhs) == len(as.Lhs) {
-				r = as.Rhs[i]
-			} else if len(as.Rhs) == 1 {
-				r = as.Rhs[0]
+			return c.exprAlias(x.X, depth)
+		}
+		return aliasFresh
+	case *ast.BinaryExpr:
+		return aliasFresh // arithmetic, comparison, string concatenation produce new values
+	case *ast.CallExpr:
+		name := ""
+		switch f := ast.Unparen(x.Fun).(type) {
+		case *ast.Ident:
+			name = f.Name
+			if _, isBuiltin := c.objOf(f).(*types.Builtin); isBuiltin && (name == "make" || name == "new" || name == "len" || name == "cap") {
+				return aliasFresh
 			}
-			if r == nil {
-				continue
-			}
-			r = ast.Unparen(r)
-			switch x := r.(type) {
-			case *ast.CompositeLit, *ast.BasicLit, *ast.FuncLit:
-			case *ast.UnaryExpr:
-				if _, ok := x.X.(*ast.CompositeLit); !ok {
-					alias = true
+		case *ast.SelectorExpr:
+			name = f.Sel.Name
+		}
+		if strings.HasPrefix(name, "New") || strings.HasPrefix(name, "new") {
+			return aliasFresh // constructor by convention
+		}
+		return aliasOuter // a call may hand back anything it was given or can reach
+	}
+	rid := rootIdent(e)
+	if rid == nil {
+		return aliasOuter
+	}
+	ro := c.objOf(rid)
+	switch {
+	case c.isLoopVar(ro):
+		return aliasElem
+	case c.isLocal(ro):
+		return c.aliasKind(ro, depth+1)
+	}
+	return aliasOuter
+}
+
+// aliasKind classifies a variable declared inside the loop body (by :=, var, or as the
+// key/value of an inner range). Value types without pointers are always fresh copies.
+func (c *classifier) aliasKind(o types.Object, depth int) int {
+	if !refLike(o.Type(), 0) {
+		return aliasFresh
+	}
+	if depth > 6 {
+		return aliasOuter
+	}
+	kind, found := aliasFresh, false
+	merge := func(k int) {
+		found = true
+		if k > kind {
+			kind = k
+		}
+	}
+	ast.Inspect(c.rs.Body, func(n ast.Node) bool {
+		switch x := n.(type) {
+		case *ast.AssignStmt:
+			for i, l := range x.Lhs {
+				id, ok := l.(*ast.Ident)
+				if !ok {
+					continue
 				}
-			case *ast.CallExpr:
-				// constructor-like calls return fresh values; indexing an outer map does not
-			default:
-				rid := rootIdent(r)
-				ro := c.objOf(rid)
-				if rid == nil || !(c.isLoopVar(ro) || c.isLocal(ro)) {
-					// value types copied from outer data are harmless; pointers/maps/slices alias
-					switch o.Type().Underlying().(type) {
-					case *types.Pointer, *types.Map, *types.Slice, *types.Interface:
-						alias = true
+				if !(c.info().Defs[id] == o || (x.Tok == token.ASSIGN && c.info().Uses[id] == o)) {
+					continue
+				}
+				switch {
+				case len(x.Rhs) == len(x.Lhs):
+					merge(c.exprAlias(x.Rhs[i], depth))
+				case len(x.Rhs) == 1:
+					// v, ok := m[k] / x.(T) / f()
+					r := ast.Unparen(x.Rhs[0])
+					if ta, isTA := r.(*ast.TypeAssertExpr); isTA {
+						r = ta.X
+					}
+					merge(c.exprAlias(r, depth))
+				default:
+					merge(aliasOuter)
+				}
+			}
+		case *ast.ValueSpec:
+			for i, nm := range x.Names {
+				if c.info().Defs[nm] == o {
+					if i < len(x.Values) {
+						merge(c.exprAlias(x.Values[i], depth))
+					} else {
+						merge(aliasFresh)
+					}
+				}
+			}
+		case *ast.RangeStmt:
+			for _, kv := range []ast.Expr{x.Key, x.Value} {
+				if id, ok := kv.(*ast.Ident); ok && c.info().Defs[id] == o {
+					merge(c.exprAlias(x.X, depth))
+				}
+			}
+		case *ast.TypeSwitchStmt:
+			if as, ok := x.Assign.(*ast.AssignStmt); ok && len(as.Lhs) == 1 {
+				// the symbolic variable is defined implicitly per clause
+				for _, cl := range x.Body.List {
+					if c.info().Implicits[cl] == o && len(as.Rhs) == 1 {
+						if ta, ok := ast.Unparen(as.Rhs[0]).(*ast.TypeAssertExpr); ok {
+							merge(c.exprAlias(ta.X, depth))
+						} else {
+							merge(aliasOuter)
+						}
 					}
 				}
 			}
 		}
 		return true
 	})
-	return alias
+	if !found {
+		return aliasOuter // function literal parameter, etc.: unknown origin
+	}
+	return kind
 }
 
 func (c *classifier) stmt(s ast.Stmt, g guard) {
@@ -588,7 +727,9 @@ func (c *classifier) stmt(s ast.Stmt, g guard) {
 }
 
 // sortedAfter: the first use of o after the loop is as first argument of a sort call.
-func (c *classifier) sortedAfter(o types.Object) bool {
+// Returns "" (not sorted), "natural" (sort.Strings/Ints/Float64s, slices.Sort: the order of the
+// elements themselves) or "comparator" (order given by user code).
+func (c *classifier) sortedAfter(o types.Object) string {
 	var first *ast.Ident
 	ast.Inspect(c.fn, func(n ast.Node) bool {
 		id, ok := n.(*ast.Ident)
@@ -601,9 +742,9 @@ func (c *classifier) sortedAfter(o types.Object) bool {
 		return true
 	})
 	if first == nil {
-		return false
+		return ""
 	}
-	ok := false
+	ok := ""
 	ast.Inspect(c.fn, func(n ast.Node) bool {
 		call, isCall := n.(*ast.CallExpr)
 		if !isCall || len(call.Args) == 0 || first.Pos() < call.Pos() || first.Pos() > call.End() {
@@ -631,7 +772,16 @@ func (c *classifier) sortedAfter(o types.Object) bool {
 				a0 = ast.Unparen(conv.Args[0])
 			}
 			if id, isID := a0.(*ast.Ident); isID && id == first {
-				ok = true
+				switch name {
+				case "sort.Strings", "sort.Ints", "sort.Float64s", "slices.Sort":
+					if a0 == ast.Unparen(call.Args[0]) {
+						ok = "natural"
+					} else {
+						ok = "comparator"
+					}
+				default:
+					ok = "comparator"
+				}
 			}
 		}
 		return true
@@ -661,10 +811,24 @@ func (c *classifier) classify(singleton bool) string {
 		}
 	}
 	if has["collect"] {
-		for o := range c.colls {
-			if !c.sortedAfter(o) {
+		// the slice that received the appends must itself be sorted, in the natural order
+		// of its elements, and the elements must be the (pairwise distinct) map keys:
+		// only then is the sorted slice a function of the map alone
+		derived := false
+		for o, keyOnly := range c.colls {
+			switch c.sortedAfter(o) {
+			case "":
 				return "order_sensitive_append"
+			case "comparator":
+				derived = true
+			default:
+				if !keyOnly {
+					derived = true
+				}
 			}
+		}
+		if derived {
+			return "collect_derived_sort"
 		}
 	}
 	// leaving the loop early (return / break) while other entries have already had an
@@ -952,7 +1116,7 @@ func main() {
 						s := Site{Name: fmt.Sprintf("%s:%s#%d", rel, disp, idx), File: relFile, Line: p.Fset.Position(x.Pos()).Line,
 							RawShape: raw, Shape: raw, Effects: cl.effs, Fingerprint: fingerprint(text), Text: text}
 						if a, ok := allowBy[s.Name]; ok && !insensitive[raw] {
-							if a.Fingerprint == s.Fingerprint {
+							if a.Fingerprint == s.Fingerprint && a.Shape == raw {
 								s.Allow, s.Why = a.Kind, a.Why
 								if a.Kind == "finding" {
 									s.Shape = "known_sensitive"
@@ -961,7 +1125,7 @@ func main() {
 								}
 							} else {
 								s.Allow = "stale"
-								s.Why = "allow-list entry has fingerprint " + a.Fingerprint + ", the loop now has " + s.Fingerprint
+								s.Why = fmt.Sprintf("allow-list entry was written for fingerprint %s shape %s, the loop now has fingerprint %s shape %s", a.Fingerprint, a.Shape, s.Fingerprint, raw)
 							}
 						}
 						sites = append(sites, s)
@@ -1112,6 +1276,8 @@ func coqShape(s string) string {
 		return "FirstMatchAmbiguous"
 	case "derived_key_write":
 		return "DerivedKeyWrite"
+	case "collect_derived_sort":
+		return "CollectDerivedSort"
 	}
 	return "Unknown"
 }
